@@ -591,6 +591,14 @@ pub fn run_trace(prop: &str, seed: u64, scenarios: u64, path: &std::path::Path, 
                 gen::preamble(&mut bytes, &mut r, &o);
                 let tail = gen::rand_bytes(&mut r, 13); gen::stream_records(&mut bytes, &mut r, 5, id, &tail, true, false);
                 (b, "realistic") },
+            2 if s % 10 == 2 => { // hostile lengths on skipped records around and inside a small preamble
+                let b = gen::pick(&mut r, &[24usize, 64, 8192]);
+                gen::BIG_NOISE.with(|c| c.set(true));
+                gen::noise_record(&mut bytes, &mut r, id);
+                let o = gen::ReqOpts { id, role: 1, flags: 1, max_pair: (b - 13).min(40), npairs: r.gen_range(1..4), interleave: true, big: false };
+                gen::preamble(&mut bytes, &mut r, &o);
+                gen::BIG_NOISE.with(|c| c.set(false));
+                (b, "hostile-lengths") },
             2 => { let b = 70000 + 13 + 3; let b = (b + 7) & !7;
                 let o = gen::ReqOpts { id, role: 3, flags: 0, max_pair: 70000, npairs: r.gen_range(1..6), interleave: true, big: true };
                 gen::preamble(&mut bytes, &mut r, &o);
